@@ -197,7 +197,7 @@ func (s *Server) handle(conn net.Conn) {
 	s.logger.Debug("connection stats",
 		zap.String("remote", cx.RemoteAddr().String()),
 		zap.Uint64("read", cx.bytesRead),
-		zap.Uint64("written", cx.bytesWritten),
+		zap.Uint64("written", atomic.LoadUint64(&cx.bytesWritten)),
 		zap.Duration("duration", duration),
 	)
 }
